@@ -104,6 +104,7 @@ def scenario(ctx, rng, tmpdir):
         hy['mac'] = True
     if variant != 'plain' and hy['part_entry'] in (2, 3):
         hy['part_entry'] = 1
+    share_boot = variant != 'plain' and rng.random() < 0.15
 
     def build(with_hybrid):
         with isoapi.frozen_time():
@@ -115,6 +116,9 @@ def scenario(ctx, rng, tmpdir):
                 if key == 'efi' and variant == 'plain':
                     continue
                 if key == 'mac' and variant != 'mac':
+                    continue
+                if key == 'efi' and share_boot:
+                    names['efi'] = names['boot']       # the EFI entry uses the BIOS boot file itself
                     continue
                 data = isoapi.isolinux_boot(n, {'boot': 0x11, 'efi': 0x22, 'mac': 0x33}[key])
                 nm = '/%s.;1' % {'boot': 'ISOLINUX', 'efi': 'EFIBOOT', 'mac': 'MACBOOT'}[key]
